@@ -40,6 +40,24 @@ var c14Exotic = map[resolve.System][]string{
 	resolve.PyPI:  {"1.0.1", "1.0.1.post1", "2.0.1.dev1", "10.0", "1!0.5", "2.0.1rc1", "2.0.1"},
 }
 
+// c14Twins is a third alphabet, drawn for a sixth of the runs: versions that
+// are spelled differently but compare equal in their system (build metadata,
+// trailing zero components, release-equivalent qualifiers). They are different
+// keys - each is listed once, with its own attributes -, and among themselves
+// they may be listed in any order ("ascending" cannot say more).
+var c14Twins = map[resolve.System][]string{
+	resolve.NPM:   {"1.0.0", "1.0.0+build.1", "2.0.0", "1.0.0+x", "2.0.0+1", "0.9.0"},
+	resolve.Maven: {"1.0", "1.0.0", "1", "1.0-ga", "2.0", "2.0.0", "0.9"},
+	resolve.PyPI:  {"1.0", "1.0.0", "1.0.0.0", "2.0", "2.0.0", "0.9", "1.0.post0.dev0"},
+}
+
+// c14SameOrder reports whether two version strings parse and compare equal.
+func c14SameOrder(sys resolve.System, a, b string) bool {
+	x, err1 := sys.Semver().Parse(a)
+	y, err2 := sys.Semver().Parse(b)
+	return err1 == nil && err2 == nil && x.Compare(y) == 0
+}
+
 // c14Unparsable reports whether ver does not parse in its system (only npm
 // alphabets contain such strings).
 func c14Unparsable(sys resolve.System, ver string) bool {
@@ -307,7 +325,10 @@ func (k *c14Checker) checkVersions(pk resolve.PackageKey) {
 		if sawUnparsable && pk.System == resolve.NPM {
 			k.bad("Versions:order", "Versions(%v): parsable %s listed after an unparsable version", pk, v.Version)
 		}
-		if prev != nil && prev.Compare(sv) >= 0 {
+		if prev != nil && prev.Compare(sv) == 0 && prevStr != v.Version {
+			// two spellings of one position in the order: either may come first
+			probe(k.res, "equal_comparing_neighbours_listed", 1)
+		} else if prev != nil && prev.Compare(sv) >= 0 {
 			k.bad("Versions:order", "Versions(%v): %s listed before %s", pk, prevStr, v.Version)
 		}
 		prev, prevStr = sv, v.Version
@@ -400,7 +421,7 @@ func (k *c14Checker) checkMatching(pk resolve.PackageKey, req string, exactOf st
 			k.bad("Matching:exact-missing", "MatchingVersions(%v) does not return the added version %s it names exactly", rk, exactOf)
 		}
 		for v := range seen {
-			if v != exactOf {
+			if v != exactOf && !c14SameOrder(pk.System, v, exactOf) {
 				k.bad("Matching:exact-extra", "MatchingVersions(%v) returned %s for an exact requirement on %s", rk, v, exactOf)
 			}
 		}
@@ -439,6 +460,11 @@ func RunC14(t *kernel.Tape, o Opts) *Result {
 		alphabet = c14Exotic
 		nver = t.Range(2, 8)
 		fault(res, "exotic_version_alphabet_runs", 1)
+	}
+	if t.Bool(1, 6) {
+		alphabet = c14Twins
+		nver = t.Range(2, 7)
+		fault(res, "equal_comparing_version_spellings_runs", 1)
 	}
 	k.alphabet = alphabet
 	readds, deleted, reads := 0, 0, 0
